@@ -4,6 +4,8 @@ import Proofs.LoadClone
 import Proofs.LoadDomain
 import Proofs.LoadDecisions
 import Proofs.LoadPhrase
+import Proofs.LoadFuelBuilt
+import Proofs.LoadDangling
 import Gen.Sharing
 
 /-!
@@ -168,6 +170,27 @@ theorem build_perm (s1 s2 : List Stmt) (hp : s1.Perm s2) (hu : UniqNamesOk s1) (
 theorem inDomain_perm (s1 s2 : List Stmt) (hp : s1.Perm s2) : inDomain s1 = inDomain s2 :=
   Pyx.Load.inDomain_perm hp
 
+/-- **inDomain_guards**: the model's domain predicate — the one the driver evaluates on every compared case —
+    implies the hypotheses of `build_perm` / `build_perm_ordered` / `join_exact`: identifier names unique per class,
+    INSERTs of a kind without CREATE TABLE agree on the inferred class, no key list repeats an attribute name, and
+    the statements are accepted. -/
+theorem inDomain_guards (ss : List Stmt) (h : inDomain ss = true) :
+    UniqNamesOk ss ∧ InferAgree ss ∧ (∀ a ∈ popAssocs ss, KeysOk a) ∧ (build ss).isSome = true := by
+  obtain ⟨h1, h2, h3, h4⟩ := guards_of_inDomain ss h
+  exact ⟨h1, h2, h3, by simp [build, h4]⟩
+
+/-- ... so every K-compared case and each of its permutations satisfies `build_perm`'s conclusion outright -/
+theorem build_perm_inDomain (s1 s2 : List Stmt) (hp : s1.Perm s2) (hd : inDomain s1 = true) :
+    ∃ m1 m2, build s1 = some m1 ∧ build s2 = some m2 ∧
+      (∀ k, ClsEquiv (findCls m1.classes k) (findCls m2.classes k)) ∧
+      (m1.assocs.map (·.1)).Perm (m2.assocs.map (·.1)) ∧
+      (∀ a x y, LinkedVals m1 a x y ↔ LinkedVals m2 a x y) := by
+  obtain ⟨hu, hi, hk, hb⟩ := inDomain_guards s1 hd
+  obtain ⟨hsome, hall⟩ := build_perm s1 s2 hp hu hi hk
+  obtain ⟨m1, hm1⟩ := Option.isSome_iff_exists.mp hb
+  obtain ⟨m2, hm2⟩ := Option.isSome_iff_exists.mp (by rw [← hsome]; exact hb)
+  exact ⟨m1, m2, hm1, hm2, hall m1 m2 hm1 hm2⟩
+
 /-- **build_perm_ordered**: if moreover the permutation keeps the relative order of the INSERTs of every
     class, the instances of every class are in the same order and every association carries the same
     ordered partner lists (instances named by their position). -/
@@ -227,9 +250,12 @@ theorem input_split_perm (parts1 parts2 : List (List Stmt)) (h : parts1.flatten.
     no cardinality-violating duplicates (the API relates with the cardinality check, the loader connects unchecked); key lists non-empty (`new` never relates over an empty key list), without
     repeats; no reflexive association; CHAINED KEYS allowed — an identifying attribute that is itself referential in
     its class is read through the chain of referential properties — provided on the loaded metamodel every read
-    ends within as many steps as there are classes (`readsTerminate`: no cyclic chain of key attributes) and the
+    ends within `readBound ss` steps, the number of (class, attribute) pairs plus the number of classes
+    (`readsTerminate`: a schema-only sufficient condition for "no cyclic chain of key attributes") and the
     identifying values of every referred row that some row refers to can be read back (`resolved`: the referred
-    row's own references are not dangling); without chained keys both hold (`reads_of_noChain`); and
+    row's own references are not dangling — the guard the open finding `api-dangling-chained-key` violates, see
+    `dangling_key_exact`; the cardinality guards are the ones `api-cardinality-rejected` violates, see
+    `cardinality_exact`); without chained keys both hold (`reads_of_noChain`); and
     `_find_link(referred, referring, rel, link.phrase)` answering with the association itself (`ResolvesAt`) —
     the guard that the open finding `api-phrased-direction` violates for associations whose ends carry
     different phrases. -/
@@ -417,6 +443,99 @@ theorem phrased_witness_twin :
     ((buildCore (phTwinSchema ++ insertsOf phTwinOrder)).assocs.map (fun p => p.2.tgt 0)) = [[0], [1]] ∧
     ((apiBuild phTwinSchema phTwinOrder).1.assocs.map (fun p => p.2.tgt 0)) = [[1], [0]] := by decide
 
+/-! ### the fuel of attribute reads -/
+
+/-- **fuel_sufficient**: a read of an attribute through the chain of referential properties is the iteration of a
+    deterministic step on (class, instance, attribute); a read that ends never visits a state twice, and on a
+    metamodel with well-formed links every state after the first is one of the (class, row, attribute) triples of
+    the metamodel — so a read that ends with SOME fuel ends with `fuelOf m`, the fuel the model runs with: the
+    model's `recursionError` stands for a read that never ends (a cyclic chain), nothing else.  (CPython itself
+    gives up at its recursion limit — about 300 hops with the default limit of 1000 frames — also on an acyclic
+    chain that long; the model does not limit the depth, and the generated populations stay far below it.) -/
+theorem fuel_sufficient (m : Model) (hwf : LinksWf m) (n : Nat) (k : String) (i : Nat) (x : String) (v : Val)
+    (h : readAttr m n k i x = some v) : readAttr m (fuelOf m) k i x = some v :=
+  fuelOf_sufficient m hwf n k i x v h
+
+/-- every metamodel the loader builds has well-formed links (the source metamodel of `clone`) -/
+theorem fuel_sufficient_built (ss : List Stmt) (hb : (build ss).isSome = true) (hk : ∀ a ∈ popAssocs ss, KeysOk a)
+    (n : Nat) (k : String) (i : Nat) (x : String) (v : Val) (h : readAttr (buildCore ss) n k i x = some v) :
+    readAttr (buildCore ss) (fuelOf (buildCore ss)) k i x = some v := by
+  have hacc : accepted ss = true := by
+    unfold build at hb
+    by_cases ha : accepted ss
+    · exact ha
+    · simp [ha] at hb
+  exact fuelOf_sufficient_built ss hacc hk n k i x v h
+
+/-- the audit's schema: acyclic, two classes, a read of four steps — inside the guard's bound `readBound` (6) -/
+def fuelSchema : List Stmt :=
+  [ .cls "A" [("x", .integer), ("z", .integer)], .cls "B" [("y", .integer), ("w", .integer)],
+    .assoc ⟨"R1", "A", true, true, ["x"], "", "B", false, true, ["y"], ""⟩,
+    .assoc ⟨"R2", "B", true, true, ["y"], "", "A", false, true, ["z"], ""⟩,
+    .assoc ⟨"R3", "A", true, true, ["z"], "", "B", false, true, ["w"], ""⟩ ]
+def fuelOrder : List (String × List Val) :=
+  [ ("B", [.int 0, .int 7]), ("A", [.int 0, .int 7]), ("B", [.int 7, .int 0]), ("A", [.int 7, .int 0]) ]
+example : inDomain (fuelSchema ++ insertsOf fuelOrder) = true := by decide
+example : readBound fuelSchema = 6 ∧ (popClasses fuelSchema).length = 2 := by decide
+example : readAttr (loaded fuelSchema fuelOrder) 3 "A" 1 "x" = none ∧
+    readAttr (loaded fuelSchema fuelOrder) 4 "A" 1 "x" = some (.int 7) := by decide
+
+/-! ### the open findings `api-dangling-chained-key` and `api-cardinality-rejected`, as statements about the model -/
+
+/-- **dangling_key_exact**: on a metamodel the loader built, let `x` be an attribute of class `K` that is
+    referential (and, for a chain of depth one, read through stored identifying attributes).  A row created with a
+    non-null value for `x` reads that value back IF AND ONLY IF some association using `x` links the row; otherwise
+    it reads `None` (`dangling_reads_none`).  So a referred row whose OWN reference is dangling (or null) cannot be
+    found through the identifying attribute `x`: `new` relates no referring row to it (`dangling_not_related`) while
+    the loader, which compares the values the rows were created with, links them. -/
+theorem dangling_key_exact (ss : List Stmt) (hk : ∀ a ∈ popAssocs ss, KeysOk a) (K : String) (j : Nat) (r : Row)
+    (hr : (rowsOf (buildCore ss).classes K)[j]? = some r) (x : String) (hx : x ∈ referential (popAssocs ss) K)
+    (hdepth : ∀ b ∈ popAssocs ss, b.srcKind = K → ∀ tk, (x, tk) ∈ keyPairs b → tk ∉ referential (popAssocs ss) b.tgtKind)
+    (hnn : isNull (r.get x) = false) (n : Nat) :
+    readAttr (buildCore ss) (n + 2) K j x = some (r.get x) ↔
+      ∃ b ∈ popAssocs ss, b.srcKind = K ∧ x ∈ (keyPairs b).map (·.1) ∧
+        (nestedJoin b (rowsOf (buildCore ss).classes b.srcKind) (rowsOf (buildCore ss).classes b.tgtKind)).tgt j ≠ [] :=
+  chained_key_read_iff (buildCore ss) (popAssocs ss) (buildCore_assocs ss hk) K j r hr x hx hdepth hnn n
+
+theorem dangling_reads_none (ss : List Stmt) (hk : ∀ a ∈ popAssocs ss, KeysOk a) (K : String) (j : Nat) (x : String)
+    (hx : x ∈ referential (popAssocs ss) K)
+    (hun : ∀ b ∈ popAssocs ss, b.srcKind = K → x ∈ (keyPairs b).map (·.1) →
+      (nestedJoin b (rowsOf (buildCore ss).classes b.srcKind) (rowsOf (buildCore ss).classes b.tgtKind)).tgt j = [])
+    (n : Nat) : readAttr (buildCore ss) (n + 1) K j x = some .none :=
+  unlinked_reads_none (buildCore ss) (popAssocs ss) (buildCore_assocs ss hk) K j x hx hun n
+
+/-- the query of `new` answers "no" for a row one of whose identifying attributes reads `None` -/
+theorem dangling_not_related (m : Model) (fuel : Nat) (kind : String) (j : Nat) (kwargs : List (String × Val))
+    (hreads : ∀ kv ∈ kwargs, (readAttr m fuel kind j kv.1).isSome = true)
+    (kv : String × Val) (hkv : kv ∈ kwargs) (hnone : readAttr m fuel kind j kv.1 = some .none)
+    (hv : kv.2 ≠ .none) : rowMatches m fuel kind j kwargs = some false :=
+  rowMatches_none_false m fuel kind j kwargs hreads kv hkv hnone hv
+
+/-- **cardinality_exact**: `relate` refuses (RelateException) exactly when the pair would give a single-valued end a
+    second partner — while the loader's `connect(check=False)` adds every matching pair -/
+theorem cardinality_exact (a : AssocStmt) (L : Links) (t s : Nat) :
+    ((relateAt a L t s).2 = false ↔
+      (s ∉ L.src t ∧ L.src t ≠ [] ∧ a.srcMany = false) ∨ (t ∉ L.tgt s ∧ L.tgt s ≠ [] ∧ a.tgtMany = false)) ∧
+    s ∈ (connect L.src t s) t ∧ t ∈ (connect L.tgt s t) s := by
+  refine ⟨relateAt_refuses_iff a L t s, ?_, ?_⟩
+  · by_cases h : s ∈ L.src t <;> simp [connect, osetAdd, h]
+  · by_cases h : t ∈ L.tgt s <;> simp [connect, osetAdd, h]
+
+/-- two A rows refer to the same B row across an association whose A end is single-valued -/
+def cardSchema : List Stmt :=
+  [ .cls "A" [("Id", .integer), ("B_Id", .integer)], .cls "B" [("Id", .integer)],
+    .assoc ⟨"R1", "A", false, true, ["B_Id"], "", "B", false, true, ["Id"], ""⟩ ]
+def cardOrder : List (String × List Val) := [("B", [.int 1]), ("A", [.int 1, .int 1]), ("A", [.int 2, .int 1])]
+
+/-- **cardinality_witness**: the loader links both A rows to the B row; `new` raises RelateException for the second
+    and leaves it unrelated -/
+theorem cardinality_witness :
+    inDomain (cardSchema ++ insertsOf cardOrder) = true ∧
+    (apiBuild cardSchema cardOrder).2 = [.ok, .ok, .relateError] ∧
+    ((buildCore (cardSchema ++ insertsOf cardOrder)).assocs.map (fun p => (p.2.src 0, p.2.tgt 0, p.2.tgt 1))) = [([0, 1], [0], [0])] ∧
+    ((apiBuild cardSchema cardOrder).1.assocs.map (fun p => (p.2.src 0, p.2.tgt 0, p.2.tgt 1))) = [([0], [0], [])] := by
+  decide
+
 /-! ### the decisions of the batch loader, translated from the source (Gen/LoadDecisions.lean, by
     translator/gen_loaddecisions.py): a changed null rule, key order or side choice breaks one of these -/
 
@@ -524,6 +643,49 @@ example : UniqNamesOk exStmts := by
       simp [uniqOf, exStmts]
       intro h'; exact absurd h'.symm h
     rw [this]; exact List.nodup_nil
+/-- the inferred-schema guard on the example: class X has no CREATE TABLE and one INSERT -/
+example : InferAgree exStmts := by
+  have hd : inDomain exStmts = true := by decide
+  exact (inDomain_guards exStmts hd).2.1
+/-- ... and a population whose INSERTs infer the class in two ways is outside the guard -/
+example : ¬ InferAgree [.insert "X" none [.int 5], .insert "X" none [.str "a"]] := by
+  intro h
+  have := h "X" (by decide) (none, [.int 5]) (by decide) (none, [.str "a"]) (by decide)
+  revert this; decide
+
+/-- `cache_transparent` with a cache that is hit: two associations refer to B through the same SET of identifying
+    attributes, named in different orders — the second one finds the index the first one built -/
+def exA2 : AssocStmt := ⟨"R2", "A", true, true, ["B_Name", "B_Id"], "", "B", false, true, ["Name", "Id"], ""⟩
+def exRows : String → List Row := fun k => rowsOf (buildCore exStmts).classes k
+example : cacheFind [((exA.tgtKind, keyNames exA), mkIndex (keyNames exA) (exRows exA.tgtKind))] exA2.tgtKind (keyNames exA2)
+    = some (mkIndex (keyNames exA) (exRows exA.tgtKind)) := by decide
+example : CacheOk exRows [((exA.tgtKind, keyNames exA), mkIndex (keyNames exA) (exRows exA.tgtKind))] := by
+  intro e he
+  simp only [List.mem_singleton] at he
+  subst he
+  exact ⟨by decide, indexSpec_mkIndex _ _⟩
+example : ((connectAll exRows [((exA.tgtKind, keyNames exA), mkIndex (keyNames exA) (exRows exA.tgtKind))] [exA2]).map
+    (fun L => (L.tgt 0, L.tgt 1, L.src 0, L.src 1))) = [([0, 1], [], [0], [0])] := by decide
+
+/-- `build_perm_ordered` on two different statement lists: the schema statements move, every class's INSERTs keep
+    their order -/
+def exStmts' : List Stmt :=
+  [ .cls "B" [("Id", .uniqueId), ("Name", .string)],
+    .insert "A" none [.int 1, .id 7, .str "n"],
+    .insert "B" none [.id 7, .str "n"],
+    .uniq "B" "I1" ["Id", "Name"],
+    .insert "A" none [.int 2, .id 0, .str "n"],
+    .insert "X" none [.int 5],
+    .insert "B" none [.id 7, .str "n"],
+    .assoc exA,
+    .insert "A" (some ["B_Name", "Id"]) [.str "x", .int 3],
+    .cls "A" [("Id", .integer), ("B_Id", .uniqueId), ("B_Name", .string)] ]
+example : exStmts ≠ exStmts' := by decide
+example : exStmts.Perm exStmts' := by decide
+example : ∀ k ∈ ["A", "B", "X"], insOf exStmts k = insOf exStmts' k := by decide
+example : (buildCore exStmts).assocs.map (fun p => (p.2.tgt 0, p.2.tgt 1, p.2.tgt 2, p.2.src 0, p.2.src 1)) =
+    (buildCore exStmts').assocs.map (fun p => (p.2.tgt 0, p.2.tgt 1, p.2.tgt 2, p.2.src 0, p.2.src 1)) := by decide
+
 /-- the API theorem is not vacuous: a schema with a two-attribute key, a duplicate-free population with a
     matching, a null and a dangling reference satisfies every guard -/
 def exSchema : List Stmt :=
@@ -535,6 +697,56 @@ def exOrder : List (String × List Val) :=
 example : (apiBuild exSchema exOrder).2 = exOrder.map (fun _ => Outcome.ok) := by decide
 example : ((apiBuild exSchema exOrder).1.assocs.map (fun p => (p.2.tgt 0, p.2.tgt 1, p.2.tgt 2, p.2.src 0))) =
     [([0], [], [], [0])] := by decide
+
+/-- ... and satisfies every guard of `api_equiv` (rows created class by class: `referredFirst_of_classwise`) -/
+example : ApiGuards exSchema exOrder := by
+  have hA : popAssocs exSchema = [exA] := by decide
+  have hschema : ∀ s ∈ exSchema, ∀ k ns vs, s ≠ .insert k ns vs := by
+    intro s hs k ns vs he
+    subst he
+    simp [exSchema] at hs
+  have hkeys : ∀ a ∈ popAssocs exSchema,
+      KeysOk a ∧ a.srcKeys.length = a.tgtKeys.length ∧ a.srcKeys ≠ [] ∧ a.srcKind ≠ a.tgtKind := by
+    intro a ha
+    rw [hA] at ha
+    simp only [List.mem_singleton] at ha
+    subst ha
+    exact ⟨⟨by decide, by decide⟩, by decide, by decide, by decide⟩
+  have hdecl : ∀ o ∈ exOrder, (findCls (popClasses exSchema) o.1).isSome = true ∧
+      o.2.length = (attrsOf exSchema o.1).length := by decide
+  obtain ⟨hrt, hres⟩ := reads_of_noChain exSchema exOrder hschema (by decide) hkeys hdecl (by rw [hA]; decide)
+  refine ⟨hschema, by decide, hkeys, hrt, hres, ?_, ?_, hdecl, ?_, ?_, ?_⟩
+  · rw [hA]; decide
+  · rw [hA]
+    intro n a hn
+    cases n with
+    | zero => simp at hn; subst hn; unfold ResolvesAt; decide
+    | succ n => simp at hn
+  · rw [hA]
+    intro a ha
+    simp only [List.mem_singleton] at ha
+    subst ha
+    apply referredFirst_of_classwise
+    intro pre o suf hord hk r hr
+    -- the rows of the referring class A are the last three
+    match pre, hord with
+    | [], h => simp [exOrder] at h; obtain ⟨rfl, _⟩ := h; simp [exA] at hk
+    | [_], h => simp [exOrder] at h; obtain ⟨_, rfl, _⟩ := h; simp [exA] at hk
+    | [_, _], h =>
+      simp [exOrder] at h
+      obtain ⟨_, _, _, rfl⟩ := h
+      revert r hr; decide
+    | [_, _, _], h =>
+      simp [exOrder] at h
+      obtain ⟨_, _, _, _, rfl⟩ := h
+      revert r hr; decide
+    | [_, _, _, _], h =>
+      simp [exOrder] at h
+      obtain ⟨_, _, _, _, _, rfl⟩ := h
+      cases hr
+    | _ :: _ :: _ :: _ :: _ :: _, h => simp [exOrder] at h
+  · rw [hA]; decide
+  · rw [hA]; decide
 
 /-- rows of the two classes interleaved: a topological order of the rows that is not class-wise -/
 def exOrder2 : List (String × List Val) :=
@@ -605,10 +817,23 @@ example : ((buildCore (chSchema ++ insertsOf chOrder)).assocs.map (fun p => (p.1
 example : readAttr (loaded chSchema chOrder) 3 "B" 0 "Id" = some (.int 1) ∧
     readAttr (loaded chSchema chOrder) 3 "B" 1 "Id" = some .none := by decide
 
+/-- **dangling_witness**: B(2)'s identifier is its reference to an A row that does not exist; the loader links
+    C(2) to B(2), `new` (rows created referred-first, nothing raised) does not -/
+theorem dangling_witness :
+    inDomain (chSchema ++ insertsOf chOrder) = true ∧
+    (apiBuild chSchema chOrder).2 = [.ok, .ok, .ok, .ok, .ok] ∧
+    ((buildCore (chSchema ++ insertsOf chOrder)).assocs.map (fun p => (p.1.rel, p.2.tgt 0, p.2.tgt 1))) =
+      [("R1", [0], []), ("R2", [0], [1])] ∧
+    ((apiBuild chSchema chOrder).1.assocs.map (fun p => (p.1.rel, p.2.tgt 0, p.2.tgt 1))) =
+      [("R1", [0], []), ("R2", [0], [])] := by decide
+
 def chOrderOk : List (String × List Val) := [ ("A", [.int 1]), ("B", [.int 1, .str "b"]), ("C", [.int 1]) ]
 
 theorem ch_reads (k : String) (i : Nat) (x : String) (hi : i < (rawRows chSchema chOrderOk k).length) :
-    (readAttr (loaded chSchema chOrderOk) (popClasses chSchema).length k i x).isSome = true := by
+    (readAttr (loaded chSchema chOrderOk) (readBound chSchema) k i x).isSome = true := by
+  suffices h3 : (readAttr (loaded chSchema chOrderOk) (popClasses chSchema).length k i x).isSome = true by
+    obtain ⟨v, hv⟩ := Option.isSome_iff_exists.mp h3
+    rw [readAttr_mono _ (length_le_readBound chSchema) k i x v hv]; rfl
   have hD : (popClasses chSchema).length = 3 := by decide
   have hst : (loaded chSchema chOrderOk).assocs.map (·.1) = popAssocs chSchema := by decide
   rw [hD]
